@@ -1265,6 +1265,19 @@ def snapshot_check(sc):
 def snapshot_oracle(ctx):
     def make(rng):
         sc = gen.gen_query(rng, "all", rng.choice(["mixed", "has", "custom"]), with_src=rng.random() < 0.25)
+        if rng.random() < 0.15:
+            # a conjunction / disjunction whose arguments decide differently from node to node: evaluating it must not
+            # rearrange it (rendering and later evaluations stay what they were)
+            ks = rng.sample(gen.KEYS, 3)
+            doc = {k: {"kind": rng.choice(["num", "num", "txt"]), "v": rng.choice([1, 5, 7, "a"])} for k in ks}
+            doc[ks[0]] = {"kind": "num", "v": 5}
+            doc[ks[1]] = {"kind": "num", "v": 1}
+            doc[ks[2]] = {"kind": "txt", "v": "a"}
+            args = [["c", [["k", "kind"]], "eq", enc("num")], ["c", [["k", "v"]], "gt", enc(3)]]
+            if rng.random() < 0.5:
+                args.append(["p", [["k", "v"]]])
+            rng.shuffle(args) if rng.random() < 0.3 else None
+            sc = {"doc": enc(doc), "path": [rng.choice([["wc"], ["gwc"]]), ["f", [rng.choice(["all", "all", "any"]), args]], ["k", "v"]]}
         n = rng.randint(2, 5)
         out = {"doc": sc["doc"], "path": sc["path"], "calls": [rng.choice(["find", "find_matches", "get_match", "get"]) for _ in range(n)],
                "traced": [rng.random() < 0.5 for _ in range(n)]}
